@@ -14,7 +14,7 @@ use flac_codec::metadata::{
 use serde_json::{json, Value};
 use std::num::NonZero;
 
-pub const RULE: &str = "(1) STREAMINFO: full product min/max block size {0,16,65535}² × min/max frame size {None,1,2^24-1}² × rate {0,1,2^20-1} × channels 1..8 × depth 1..32 × total {None,1,2^36-1} × md5 {None,Some} (373248 values) + all-zero md5 + 5 digests containing zero bytes + 8 out-of-range literals; (2) every other block value alone behind a STREAMINFO: padding {0,1,2^24-1,2^24}; application id {0,'riff',2^32-1} × data length {0,1,2^24-5,2^24-4}; every seek-point sequence of length 0..3 over a 6-symbol alphabet (incl. placeholders and the 2^64-1 sample offset) + tables of 932067 / 932068 points; comments: 3 vendor strings × every entry sequence of length 0..3 over 7 entries (empty, no '=', multi-byte UTF-8, NUL, 2^16-byte value) + a 2^24-byte entry; pictures: 21 types × 3 media types × 3 descriptions × 3 dimension tuples × data length {0,1,70000} + Picture::new over PNG/JPEG/GIF for every type + 2^24-byte data; cue sheets through Cuesheet::parse and through the public variants/constructors: CD-DA tracks {1,2,99,100} × indices {1,2,99,100,101} × INDEX 00 yes/no × catalog {none,13} × 5 ISRC forms × pre-emphasis (× non-audio × lead-in {0,88200,2^64-1} for the constructor path), non-CD-DA tracks {1,2,254,255} × indices {1,2,255,256,257} × INDEX 00 × catalog {0,13,128,129} × 5 ISRC forms × pre-emphasis (× non-audio); (3) every ordered pair of 13 representative blocks (all 6×6 kind pairs) as a slice and through BlockList::insert; (4) invalid lists (no/late/duplicate STREAMINFO, two seek tables, two comments, two PNG icons, two general icons, oversize blocks in every position); each written list is checked by an independent header walk (types, last flag, length fields, total), bytes()/total_size() against a field-length model, BlockList::read, read_blocks, read_info and read_block::<T> for all 7 T against the typed originals, and by the converse read→write→read; (5) converse on foreign bytes: 10 small sections × every single-byte substitution, every accepted one (by BlockList::read and by the block-by-block read_blocks) is written again and re-read; plus hand-assembled sequences the writer refuses to produce (every block kind duplicated, adjacent and separated; STREAMINFO not first): whatever a reader accepts must be writable again";
+pub const RULE: &str = "(1) STREAMINFO: full product min/max block size {0,16,65535}² × min/max frame size {None,1,2^24-1}² × rate {0,1,2^20-1} × channels 1..8 × depth 1..32 × total {None,1,2^36-1} × md5 {None,Some} (373248 values) + all-zero md5 + 5 digests containing zero bytes + 8 out-of-range literals; (2) every other block value alone behind a STREAMINFO: padding {0,1,2^24-1,2^24}; application id {0,'riff',2^32-1} × data length {0,1,2^24-5,2^24-4}; every seek-point sequence of length 0..3 over a 6-symbol alphabet (incl. placeholders and the 2^64-1 sample offset) + tables of 932067 / 932068 points; comments: 3 vendor strings × every entry sequence of length 0..3 over 7 entries (empty, no '=', multi-byte UTF-8, NUL, 2^16-byte value) + a 2^24-byte entry; pictures: 21 types × 3 media types × 3 descriptions × 3 dimension tuples × data length {0,1,70000} + Picture::new over PNG/JPEG/GIF for every type + 2^24-byte data; cue sheets through Cuesheet::parse and through the public variants/constructors: CD-DA tracks {1,2,99,100} × indices {1,2,99,100,101} × INDEX 00 yes/no × catalog {none,13} × 5 ISRC forms × pre-emphasis (× non-audio × lead-in {0,88200,2^64-1} for the constructor path), non-CD-DA tracks {1,2,254,255} × indices {1,2,255,256,257} × INDEX 00 × catalog {0,13,128,129} × 5 ISRC forms × pre-emphasis (× non-audio); (3) every ordered pair of 13 representative blocks (all 6×6 kind pairs) as a slice and through BlockList::insert; (4) invalid lists (no/late/duplicate STREAMINFO, two seek tables, two comments, two PNG icons, two general icons, oversize blocks in every position); each written list is checked by an independent header walk (types, last flag, length fields, total), bytes()/total_size() against a field-length model, BlockList::read, read_blocks, read_info and read_block::<T> for all 7 T against the typed originals, and by the converse read→write→read; (5) converse on foreign bytes: 10 small sections × every single-byte substitution (thorough: + every pair of positions × 25 value pairs), every accepted one (by BlockList::read and by the block-by-block read_blocks) is written again and re-read; plus hand-assembled sequences the writer refuses to produce (every block kind duplicated, adjacent and separated; STREAMINFO not first): whatever a reader accepts must be writable again";
 pub const ASSUMPTIONS: &[&str] = &[
     "field values are taken from boundary menus (listed in the rule); strings/binary payloads use fixed fill patterns",
     "combination lists are limited to pairs of optional blocks behind one STREAMINFO",
@@ -1168,6 +1168,30 @@ fn foreign(ctx: &Ctx, acc: &mut Acc) {
                 acc.outcome(format!("converse:{label}"));
                 for (clause, text) in findings {
                     acc.violation(format!("C11|{clause}"), format!("section '{name}' with byte {i} set to {v:#04x}: {text}"), json!({"kind":"c11-bytes","base":name,"pos":i,"value":v,"hex":hex(&m)}));
+                }
+            }
+        }
+        if ctx.thorough() {
+            // every PAIR of positions set to each pair of values from {00, 01, 7F, 80, FF}
+            for i in 0..base.len() {
+                for j in i + 1..base.len() {
+                    for (a, b) in [0x00u8, 0x01, 0x7F, 0x80, 0xFF].into_iter().flat_map(|a| [0x00u8, 0x01, 0x7F, 0x80, 0xFF].into_iter().map(move |b| (a, b))) {
+                        if (a == base[i] && b == base[j]) || !ctx.mine() {
+                            continue;
+                        }
+                        let mut m = base.clone();
+                        m[i] = a;
+                        m[j] = b;
+                        let (label, findings) = foreign_case(&m);
+                        acc.states += 1;
+                        acc.executions += 1;
+                        acc.transitions += 3;
+                        acc.dim("cases_converse_foreign_pairs", 1);
+                        acc.outcome(format!("converse2:{label}"));
+                        for (clause, text) in findings {
+                            acc.violation(format!("C11|{clause}"), format!("section '{name}' with bytes {i},{j} set to {a:#04x},{b:#04x}: {text}"), json!({"kind":"c11-bytes","base":name,"pos":i,"value":a,"hex":hex(&m)}));
+                        }
+                    }
                 }
             }
         }
